@@ -72,10 +72,10 @@ def editOfJson (j : Json) (k : String) : R Edit :=
 
 def callOf : String → R Call
   | "initialize" => pure .initialize | "upgradeBatch" => pure .upgradeBatch
-  | "finalize" => pure .finalize | "admit" => pure .admit
+  | "finalize" => pure .finalize | "submit" => pure .submit
   | s => .error s!"ctlpdeploy: call {s}"
 def callStr : Call → String
-  | .initialize => "initialize" | .upgradeBatch => "upgradeBatch" | .finalize => "finalize" | .admit => "admit"
+  | .initialize => "initialize" | .upgradeBatch => "upgradeBatch" | .finalize => "finalize" | .submit => "submit"
 
 def faultOf : String → R Fault
   | "none" => pure .none | "get" => pure .get | "write" => pure .write
@@ -146,6 +146,30 @@ def walkBound (rel : Rel) (r : Int) (lim0 : Int) : List Step → List Step → L
      | none => true) && walkBound rel r lim0 done' ss os
   | _, _, _ => true
 
+/-- which branch each step of the implementation's walk took (distribution statistics) -/
+def stepTags : Option Dep → List Step → List (Out StepOut) → List String
+  | d, s :: ss, .val o :: os =>
+    let t := match s.call, d with
+      | .initialize, some _ =>
+        if o.res = .err then "init:err" else if o.writes = 1 then "init:claimed" else "init:already"
+      | .upgradeBatch, some d0 =>
+        if o.res = .err then "upgrade:err" else if o.writes = 1 then "upgrade:wrote"
+        else if d0.replicas = some 0 then "upgrade:size0"
+        else if !isUnderRolloutControl d0 then "upgrade:notcontrolled" else "upgrade:satisfied"
+      | .finalize, some _ =>
+        if o.res = .err then "finalize:err" else if o.writes = 0 then "finalize:noop"
+        else if s.bpNil then "finalize:full" else "finalize:controlinfo-only"
+      | .submit, some d0 =>
+        match o.dep with
+        | some d' =>
+          if d0.inProgress then
+            (if isPartitionStyle (getStrategy (applyEdit d0 s.edit)) then "submit:partition" else "submit:inprogress-other")
+          else if d'.inProgress then "submit:enters-rollout" else "submit:plain"
+        | none => "submit:?"
+      | _, none => "nodep-step"
+    t :: stepTags o.dep ss os
+  | _, _, _ => []
+
 def handle : Handler := fun op inp impl => do
   match op with
   | "walk" =>
@@ -159,18 +183,20 @@ def handle : Handler := fun op inp impl => do
     let model := run c d0 steps
     -- tags
     let calls := steps.map fun s => callStr s.call
-    let faults := steps.filter (fun s => s.fault != .none && s.call != .admit)
+    let faults := steps.filter (fun s => s.fault != .none && s.call != .submit)
     let panicked := outs.any fun o => match o with | .panic => true | _ => false
     let wrote := outs.any fun o => match o with | .val o => o.writes > 0 | _ => false
     let tags := [s!"len:{if steps.length ≥ 8 then "8+" else toString steps.length}"] ++
       (calls.eraseDups.map fun c => s!"has:{c}") ++
       (if faults.isEmpty then [] else ["faulted"]) ++
-      (if steps.any (fun s => s.fault == .get && s.call != .admit) then ["fault:get"] else []) ++
-      (if steps.any (fun s => s.fault == .write && s.call != .admit) then ["fault:write"] else []) ++
+      (if steps.any (fun s => s.fault == .get && s.call != .submit) then ["fault:get"] else []) ++
+      (if steps.any (fun s => s.fault == .write && s.call != .submit) then ["fault:write"] else []) ++
       (if panicked then ["panic"] else []) ++
       (if d0.isNone then ["nodep"] else []) ++
       (if wrote then [] else ["nowrite"]) ++
-      (if steps.isEmpty then ["trivial"] else [])
+      (if steps.isEmpty then ["trivial"] else []) ++
+      (stepTags d0 steps outs).eraseDups ++
+      (if (steps.zip steps.tail).any (fun (a, b) => sameCall a b) then ["repeat"] else [])
     -- oracles on the implementation's snapshots
     let stepH := walkOracles rel d0 steps outs
     let pairH := pairOracles steps outs
@@ -192,9 +218,7 @@ def handle : Handler := fun op inp impl => do
         | some r => if noScale steps then [("C01.pdeploy_walk_bound", walkBound rel r (limitOf d) [] steps outs)] else []
         | none => []
       | none => []
-    -- the implementation may panic only where the model does (nil replicas, batch index out of range)
-    let panicH := [("C09.pdeploy_no_panic", !panicked || (model.any fun o => match o with | .panic => true | _ => false))]
-    return { model := arrJ (model.map outToJson), holds := andAll (stepH ++ pairH ++ rtH ++ wbH ++ panicH), tags := tags ++ rtTags }
+    return { model := arrJ (model.map outToJson), holds := andAll (stepH ++ pairH ++ rtH ++ wbH), tags := tags ++ rtTags }
   | _ => .error s!"ctlpdeploy: unknown op {op}"
 
 end RV.Drv.CtlPDeploy
